@@ -63,6 +63,8 @@ pub fn classify(msg: &str) -> String {
         "d"
     } else if msg.contains("failed to intern") {
         "I"
+    } else if msg.contains("static_text().is_some()") {
+        "e"
     } else if msg.contains("Bad offset") || msg.contains("Bad range") {
         "o"
     } else if msg.contains("assertion `left == right` failed") && msg.contains("RawSyntaxKind(") {
